@@ -56,7 +56,7 @@ def cases(tier, seed):
     n = 90 if tier == "quick" else 10000
     for i in range(n):
         L = int(rng.integers(1, 5))
-        yield {"mesh": gen.random_mesh(rng, 60 if tier == "quick" else 250), "history": [int(x) for x in rng.integers(0, len(REQS), size=L)], "qseed": int(rng.integers(0, 10**6))}
+        yield {"mesh": gen.random_mesh(rng, 60 if tier == "quick" else 250, families=gen.ALL_FAMILIES), "history": [int(x) for x in rng.integers(0, len(REQS), size=L)], "qseed": int(rng.integers(0, 10**6))}
 
 
 def elements(m, g, twin, kind):
